@@ -1013,6 +1013,10 @@ func runDisc(t *testing.T, run *ev.Run, groups [][]discCase, deadline time.Time)
 		runDiscGroup(t, groups[i], func(c discCase, fs []finding, class string) {
 			n++
 			cs.add(class)
+			if n == 1 && (i == 3 || i == len(groups)/2) {
+				buf, _, _ := c.build(nil)
+				run.Sample(map[string]interface{}{"part": "disc", "case": c, "datagram_hex": hx(buf), "class": class})
+			}
 			for _, f := range fs {
 				mu.Lock()
 				if _, ok := cands[f.sig()]; !ok {
